@@ -4,6 +4,7 @@ package http2
 
 import (
 	"fmt"
+	"net"
 	"reflect"
 	"sync"
 	"sync/atomic"
@@ -269,4 +270,19 @@ func VerifGauges() (cur, max [5]int64) {
 		max[i] = atomic.LoadInt64(&verifGaugeMax[i])
 	}
 	return cur, max
+}
+
+// verifDialers maps a Dialer made by VerifNewClient to the function that
+// supplies its transport. Dialer.tryDial asks here first, so such a Client goes
+// through the real Dial (NewConn, Handshake), pickConn, roundTripOnce and
+// RoundTrip, only without TLS.
+var verifDialers sync.Map // *Dialer -> func() (net.Conn, error)
+
+func verifDial(d *Dialer) (net.Conn, bool, error) {
+	if f, ok := verifDialers.Load(d); ok {
+		c, err := f.(func() (net.Conn, error))()
+		return c, true, err
+	}
+
+	return nil, false, nil
 }
